@@ -110,6 +110,11 @@ fn root(kind: &str) -> PathBuf {
 
 /// a fresh analysis with a main, a library and a std workspace; returns the diagnostics of one file placed in `placement`
 fn diagnose(cfg: &Cfg, placement: &str, text: &str) -> Option<Vec<Diagnostic>> {
+    diagnose_meta(cfg, placement, text).0
+}
+
+/// ... together with what the real module index answers to `is_meta_file` for that file
+fn diagnose_meta(cfg: &Cfg, placement: &str, text: &str) -> (Option<Vec<Diagnostic>>, bool) {
     let mut analysis = EmmyLuaAnalysis::new();
     analysis.update_config(Arc::new(cfg.emmyrc()));
     analysis.add_main_workspace(root("main"));
@@ -129,13 +134,21 @@ fn diagnose(cfg: &Cfg, placement: &str, text: &str) -> Option<Vec<Diagnostic>> {
         _ => None,
     };
     assert_eq!(ws, expect, "placement {placement} did not give the intended workspace");
-    analysis.diagnose_file(id, CancellationToken::new())
+    let is_meta = analysis.compilation.get_db().get_module_index().is_meta_file(&id);
+    (analysis.diagnose_file(id, CancellationToken::new()), is_meta)
 }
 
-fn header(meta: bool, file_enable: &[String], file_disable: &[String]) -> String {
+/// spellings of the meta tag: bare, the two names that keep the module path, a module name, a dotted module name
+const METAS: &[Option<&str>] = &[None, Some(""), Some("_"), Some("no-require"), Some("mylib"), Some("socket.io")];
+
+fn header(meta: Option<&str>, file_enable: &[String], file_disable: &[String]) -> String {
     let mut s = String::new();
-    if meta {
-        s.push_str("---@meta\n");
+    if let Some(name) = meta {
+        if name.is_empty() {
+            s.push_str("---@meta\n");
+        } else {
+            s.push_str(&format!("---@meta {name}\n"));
+        }
     }
     for c in file_enable {
         s.push_str(&format!("---@diagnostic enable: {c}\n"));
@@ -179,9 +192,15 @@ fn corr_lattice() {
                 continue;
             }
             for bits in 0u32..(1 << 7) {
+              for (mi, meta) in METAS.iter().enumerate() {
+                // bit 2 used to be the meta switch; the tag now ranges over all its spellings
+                if bits & 4 != 0 {
+                    continue;
+                }
+                let meta: Option<&str> = *meta;
+                let _ = mi;
                 let fe = bits & 1 != 0;
                 let wd = bits & 2 != 0;
-                let meta = bits & 4 != 0;
                 let fd = bits & 8 != 0;
                 let we = bits & 16 != 0;
                 let enable = bits & 32 == 0;
@@ -206,14 +225,15 @@ fn corr_lattice() {
                     if sev.is_some() && placement != "main" {
                         continue;
                     }
-                    let r = guarded(|| diagnose(&cfg, placement, &text));
-                    let obs = match &r {
-                        Ok(r) => enc_obs(r, code),
-                        Err(e) => json!({"panic": e}),
+                    let r = guarded(|| diagnose_meta(&cfg, placement, &text));
+                    let (obs, is_meta) = match &r {
+                        Ok((r, m)) => (enc_obs(r, code), json!(m)),
+                        Err(e) => (json!({"panic": e}), Value::Null),
                     };
-                    println!("{}", json!({"kind": "lattice", "code": code, "checker": checker, "fe": fe, "wd": wd, "meta": meta, "fd": fd, "we": we,
+                    println!("{}", json!({"kind": "lattice", "code": code, "checker": checker, "fe": fe, "wd": wd, "meta": meta, "is_meta": is_meta, "fd": fd, "we": we,
                         "enable": enable, "sev": sev, "level": level, "placement": placement, "obs": obs}));
                 }
+              }
             }
         }
     }
@@ -281,7 +301,8 @@ fn corr_globals(rng: &mut Rng, n: usize) {
 struct SCase {
     cfg: Cfg,
     placement: String,
-    meta: bool,
+    meta: Option<String>, // the name after ---@meta ("" = bare tag)
+    raw_body: Option<String>, // a hand-written program instead of trigger bodies
     file_enable: Vec<String>,
     file_disable: Vec<String>,
     bodies: Vec<usize>, // indices into TRIGGERS
@@ -290,7 +311,7 @@ struct SCase {
 
 impl SCase {
     fn to_json(&self) -> Value {
-        json!({"cfg": self.cfg.to_json(), "placement": self.placement, "meta": self.meta, "file_enable": self.file_enable,
+        json!({"cfg": self.cfg.to_json(), "placement": self.placement, "meta": self.meta, "raw_body": self.raw_body, "file_enable": self.file_enable,
                "file_disable": self.file_disable, "bodies": self.bodies, "extra_names": self.extra_names})
     }
     fn from_json(v: &Value) -> SCase {
@@ -300,7 +321,8 @@ impl SCase {
         SCase {
             cfg: Cfg::from_json(&v["cfg"]),
             placement: v["placement"].as_str().unwrap_or("main").to_string(),
-            meta: v["meta"].as_bool().unwrap_or(false),
+            meta: match &v["meta"] { Value::Bool(true) => Some(String::new()), Value::String(s) => Some(s.clone()), _ => None },
+            raw_body: v["raw_body"].as_str().map(|s| s.to_string()),
             file_enable: strs("file_enable"),
             file_disable: strs("file_disable"),
             bodies: v["bodies"].as_array().map(|a| a.iter().filter_map(|x| x.as_u64().map(|n| n as usize)).filter(|i| *i < TRIGGERS.len()).collect()).unwrap_or_default(),
@@ -308,6 +330,9 @@ impl SCase {
         }
     }
     fn body(&self) -> String {
+        if let Some(b) = &self.raw_body {
+            return b.clone();
+        }
         let mut s = String::new();
         for &i in &self.bodies {
             s.push_str(TRIGGERS[i].2);
@@ -319,7 +344,7 @@ impl SCase {
         s
     }
     fn header_lines(&self) -> usize {
-        (self.meta as usize) + self.file_enable.len() + self.file_disable.len() + 1
+        (self.meta.is_some() as usize) + self.file_enable.len() + self.file_disable.len() + 1
     }
 }
 
@@ -377,7 +402,8 @@ fn gen_case(rng: &mut Rng) -> SCase {
     SCase {
         cfg,
         placement,
-        meta: rng.chance(1, 5),
+        meta: if rng.chance(1, 4) { METAS[1 + rng.below(METAS.len() - 1)].map(|s| s.to_string()) } else { None },
+        raw_body: None,
         file_enable: subset(rng, &trig, 1, 5),
         file_disable: subset(rng, &trig, 1, 6),
         bodies,
@@ -395,7 +421,7 @@ fn keys(ds: &[Diagnostic]) -> Vec<Key> {
 /// the property's sentences, checked on the implementation's output alone
 fn search_one(c: &SCase, out: &mut Vec<Value>) -> (usize, usize) {
     let body = c.body();
-    let text = header(c.meta, &c.file_enable, &c.file_disable) + &body;
+    let text = header(c.meta.as_deref(), &c.file_enable, &c.file_disable) + &body;
     let res = guarded(|| diagnose(&c.cfg, &c.placement, &text));
     let mut report = |sig: String, what: String| out.push(json!({"signature": sig, "what": what, "case": c.to_json(), "text": text}));
     let res = match res {
@@ -420,11 +446,13 @@ fn search_one(c: &SCase, out: &mut Vec<Value>) -> (usize, usize) {
     }
     // "Meta files ... report nothing".  A file outside every workspace root has no module entry, so the module index
     // cannot mark it as a meta file (and the server ignores such files): the sentence is checked for files of a workspace.
-    if c.meta && c.placement != "none" && !ds.is_empty() {
+    if c.meta.is_some() && c.placement != "none" && !ds.is_empty() {
         let d0 = &ds[0];
         let code = code_of(d0);
-        let sig = if fe.contains(code.as_str()) { "meta-file-reports:file-enabled-code" } else { "meta-file-reports:other-code" };
-        report(sig.into(), format!("a ---@meta file reported {} diagnostics, first {} ({})", ds.len(), code, d0.message));
+        let name = c.meta.as_deref().unwrap_or("");
+        let sig = if !name.is_empty() && name != "_" && name != "no-require" { "meta-file-reports:named-tag" }
+            else if fe.contains(code.as_str()) { "meta-file-reports:file-enabled-code" } else { "meta-file-reports:other-code" };
+        report(sig.into(), format!("a `---@meta{}{}` file reported {} diagnostics, first {} ({})", if name.is_empty() { "" } else { " " }, name, ds.len(), code, d0.message));
     }
     // "A code in diagnostics.disable is never reported unless the file enables it"
     for d in &ds {
@@ -456,7 +484,7 @@ fn search_one(c: &SCase, out: &mut Vec<Value>) -> (usize, usize) {
     // on (same text with the header neutralised, no globals) must still be there for a code listed in `enables`
     // (and not disabled / suppressed by one of the other sentences' switches)
     let mut potential = 0usize;
-    if c.cfg.enable && !c.meta && (c.placement == "main" || c.placement == "none") {
+    if c.cfg.enable && c.meta.is_none() && (c.placement == "main" || c.placement == "none") {
         let all: Vec<String> = DiagnosticCode::all().iter().map(|c| c.get_name().to_string()).collect();
         let base_cfg = Cfg { enable: true, disable: vec![], enables: all, severity: BTreeMap::new(), globals: vec![], globals_regex: vec![], level: c.cfg.level.clone() };
         let base_text = plain_header(c.header_lines()) + &body;
@@ -544,7 +572,7 @@ fn main() {
                     distinct.insert(c.to_json().to_string());
                 }
                 *dist.entry(format!("placement_{}", c.placement)).or_default() += 1;
-                if c.meta { *dist.entry("meta".into()).or_default() += 1; }
+                if let Some(m) = &c.meta { *dist.entry(format!("meta_tag_{}", if m.is_empty() { "bare" } else { m.as_str() })).or_default() += 1; }
                 if !c.cfg.enable { *dist.entry("enable_false".into()).or_default() += 1; }
                 if !c.cfg.disable.is_empty() { *dist.entry("with_disable".into()).or_default() += 1; }
                 if !c.cfg.enables.is_empty() { *dist.entry("with_enables".into()).or_default() += 1; }
